@@ -20,7 +20,8 @@ prop("C03", opts={"memprop": "C03"}, also=["C14/wrong-deadline", "C14/early-expi
      nontrivial=[["owner_replied"], ["timed_out"], ["owner_left_with_inflight"]],
      required_probes=["owner_replied", "timed_out", "owner_left_with_inflight", "caller_left_with_inflight", "duplicate_reply", "forged_reply", "reply_unknown_or_late", "self_routed"])
 
-prop("C04", opts={"memprop": "C04", "shadowprop": "C04", "afprop": "C04"},
+prop("C04", opts={"memprop": "C04", "shadowprop": "C04", "afprop": "C04"}, also=["C03/unexpected-routed-request"],   # a set/call that the namespace rules refuse (method, unknown path, fetch-only state) must not reach an owner
+
      mix=[("c04", "default", 3), ("c04", "small", 2), ("c04+af", "default", 1.5), ("c15h", "heapcap", 1)],
      quick_mix=[("c04", "default", 2), ("c04", "small", 1), ("c04+af", "default", 1), ("c15h", "heapcap", 0.7)],
      quick_s=25, thorough_s=600,
